@@ -53,6 +53,7 @@ func guardOfCall(p *core.Prog, ci ssa.Instruction) (conds []core.Cond, g *core.G
 		}
 		return core.SingleReturnExpr(pk, fn)
 	}
+	conds = g.ExpandConds(conds)
 	return conds, g, complex, nil
 }
 
